@@ -234,10 +234,12 @@ Definition norm_profiles (ps : option (list profile)) : list profile :=
    q_mkey     : get(key, section=s): when s is not a section but a key of the master section, __getitem__ returns
                 that entry and get returns it (whatever `key` is)
    q_fmt      : _replace: an unknown variable written with a format specifier is formatted with itself
-                ('{x:>10}' -> '   {x:>10}', '{x:%Y}' -> ValueError) instead of being kept *)
-Record quirks : Set := { q_stale : bool; q_fbsect : bool; q_mkey : bool; q_fmt : bool }.
-Definition all_off : quirks := {| q_stale := false; q_fbsect := false; q_mkey := false; q_fmt := false |}.
-Definition all_on : quirks := {| q_stale := true; q_fbsect := true; q_mkey := true; q_fmt := true |}.
+                ('{x:>10}' -> '   {x:>10}', '{x:%Y}' -> ValueError) instead of being kept
+   q_metanl   : update_from_file replaces the line breaks of a continued value by blanks, but not those of a continued
+                metadata value (key:help = ...): a wrapped help text is read back with "\n" in it *)
+Record quirks : Set := { q_stale : bool; q_fbsect : bool; q_mkey : bool; q_fmt : bool; q_metanl : bool }.
+Definition all_off : quirks := {| q_stale := false; q_fbsect := false; q_mkey := false; q_fmt := false; q_metanl := false |}.
+Definition all_on : quirks := {| q_stale := true; q_fbsect := true; q_mkey := true; q_fmt := true; q_metanl := true |}.
 
 Inductive err : Set := ErrSection | ErrEntry | ErrConfig | ErrValue | ErrParse.
 Inductive res (A : Type) : Type := Ok (a : A) | Err (e : err).
@@ -765,6 +767,9 @@ Definition joined_value (ls : list string) : string :=
   smap (fun a => if Ascii.eqb a nl then sp else a) (rstrip (join (s1 nl) ls)).
 
 Definition opt_value (v : option (list string)) : option string := option_map joined_value v.
+(* metadata values: the same in the specification; the source keeps the line breaks *)
+Definition meta_value (q : quirks) (v : option (list string)) : option string :=
+  if q_metanl q then option_map (fun ls => rstrip (join (s1 nl) ls)) v else opt_value v.
 
 (* str.partition("__") *)
 Fixpoint partition_dunder (s : string) : string * bool * string :=
@@ -790,7 +795,7 @@ Definition section_items (q : quirks) (path : string) (rvars : list (string * st
            if has_char colon key then []
            else
              let m := flat_map (fun kv2 => if prefix_b (key ++ ":") (fst kv2)
-                                           then [(snd (partition_on colon (fst kv2)), opt_value (snd kv2))] else [])
+                                           then [(snd (partition_on colon (fst kv2)), meta_value q (snd kv2))] else [])
                                opts in
              let value := match opt_value (snd kv) with None => Ok "None" | Some v => py_replace q rvars None v end in
              [match py_replace q rvars None key, value with
@@ -1008,10 +1013,11 @@ Definition agrees (q : quirks) (k : case) : bool :=
   list_eqb unit_res_eqb outs (map snd ops) && forallb (fun qo => obs_eqb (answer q c (fst qo)) (snd qo)) qs.
 
 Definition quirks_of_mask (m : nat) : quirks :=
-  {| q_stale := Nat.testbit m 0; q_fbsect := Nat.testbit m 1; q_mkey := Nat.testbit m 2; q_fmt := Nat.testbit m 3 |}.
+  {| q_stale := Nat.testbit m 0; q_fbsect := Nat.testbit m 1; q_mkey := Nat.testbit m 2; q_fmt := Nat.testbit m 3;
+     q_metanl := Nat.testbit m 4 |}.
 
 (* subsets ordered by size, so that the smallest explanation is reported *)
-Definition masks : list nat := [1; 2; 4; 8; 3; 5; 6; 9; 10; 12; 7; 11; 13; 14; 15]%nat.
+Definition masks : list nat := [1; 2; 4; 8; 16; 3; 5; 6; 9; 10; 12; 17; 18; 20; 24; 7; 11; 13; 14; 19; 21; 22; 25; 26; 28; 15; 23; 27; 29; 30; 31]%nat.
 
 (* 0 = midgard equals the specification; 100+mask = equals the model with exactly these deviations switched on;
    1 = unexplained *)
